@@ -222,11 +222,16 @@ func hkExpect(e hkEntry) string {
 	th := hkThreshold(e.Cat)
 	stale := hkAgeByName(e.Age).duration(th) > th
 	altStale := hkAgeByName(e.Alt).duration(th) > th
-	switch e.Cat + "/" + e.Kind {
+	// Symlink entries ("@in": target inside the data directory, otherwise outside):
+	// Age is the decisive timestamp of the TARGET (what the entry denotes), Alt is
+	// the link's own timestamps. "never removes anything more recent" and "removes
+	// ... unmodified for more than 7 days" speak about the agent installation /
+	// cache / staging root the entry denotes, so the target's age decides and the
+	// link's own age must not matter.
+	switch e.Cat + "/" + strings.TrimSuffix(e.Kind, "@in") {
 	case "agents/plain", "agents/bin-link", "agents/link-dir":
 		// "removes agent installations unused for more than 30 days" / "never removes
 		// anything more recent": decided by the access time of the agent binary.
-		// For the symlinked forms the link itself carries the same age as its target.
 		if stale {
 			return "removed"
 		}
@@ -249,10 +254,6 @@ func hkExpect(e hkEntry) string {
 			return "either"
 		}
 		return "kept"
-	case "caches/link-mixed", "staging/link-mixed", "agents/link-mixed":
-		// fresh symlink to a stale outside target (Age = target, Alt = link): which
-		// of the two ages counts is not stated
-		return "either"
 	case "staging/nested-fresh":
 		// root directory stale, content fresh ("unmodified" is ambiguous there)
 		if !stale && !altStale {
@@ -279,7 +280,14 @@ func (w *hkWorld) build(e hkEntry, name string) {
 	base := filepath.Join(w.data, e.Cat)
 	p := filepath.Join(base, name)
 	out := filepath.Join(w.outside, e.Cat+"-"+name)
-	switch e.Cat + "/" + e.Kind {
+	kind := e.Kind
+	if strings.HasSuffix(kind, "@in") {
+		// link target inside the data directory, but outside the three categories
+		kind = strings.TrimSuffix(kind, "@in")
+		w.dir(filepath.Join(w.data, "relocated"), 0, 0)
+		out = filepath.Join(w.data, "relocated", e.Cat+"-"+name)
+	}
+	switch e.Cat + "/" + kind {
 	case "agents/plain":
 		w.dir(p, alt, alt)
 		w.file(filepath.Join(p, agentName), "agent "+name, age, alt)
@@ -289,15 +297,11 @@ func (w *hkWorld) build(e hkEntry, name string) {
 	case "agents/link-dir":
 		w.dir(out, age, age)
 		w.file(filepath.Join(out, agentName), "outside agent "+name, age, age)
-		w.link(p, out, age, age)
-	case "agents/link-mixed":
-		w.dir(out, age, age)
-		w.file(filepath.Join(out, agentName), "outside agent "+name, age, age)
-		w.link(p, out, alt, alt)
+		w.link(p, out, alt, alt) // the link's own timestamps (lutimes)
 	case "agents/bin-link":
 		w.file(out, "outside agent binary "+name, age, age)
-		w.dir(p, age, age)
-		w.link(filepath.Join(p, agentName), out, age, age)
+		w.dir(p, alt, alt)
+		w.link(filepath.Join(p, agentName), out, alt, alt)
 	case "caches/plain":
 		w.file(p, "cache "+name, alt, age)
 	case "caches/dir":
@@ -305,22 +309,15 @@ func (w *hkWorld) build(e hkEntry, name string) {
 		w.file(filepath.Join(p, "x"), "cache dir content "+name, alt, age)
 	case "caches/link-file":
 		w.file(out, "outside cache "+name, age, age)
-		w.link(p, out, age, age)
-	case "caches/link-mixed":
-		w.file(out, "outside cache "+name, age, age)
 		w.link(p, out, alt, alt)
 	case "caches/link-dir", "staging/link-dir":
 		w.dir(out, age, age)
 		w.dir(filepath.Join(out, "ab"), age, age)
 		w.file(filepath.Join(out, "ab", "f"), "outside content "+name, age, age)
-		w.link(p, out, age, age)
-	case "staging/link-mixed":
-		w.dir(out, age, age)
-		w.file(filepath.Join(out, "f"), "outside content "+name, age, age)
 		w.link(p, out, alt, alt)
 	case "staging/link-file":
 		w.file(out, "outside file "+name, age, age)
-		w.link(p, out, age, age)
+		w.link(p, out, alt, alt)
 	case "staging/plain":
 		w.dir(p, alt, age)
 		w.dir(filepath.Join(p, "ab"), alt, age)
@@ -363,22 +360,26 @@ func hkVariants(cat string, ages []hkAge) []hkEntry {
 	case "agents":
 		add("plain", names, alts)
 		add("nobinary", []string{"now", "10T"}, []string{"now"})
-		add("link-dir", near, []string{"-"})
-		add("bin-link", near, []string{"-"})
-		add("link-mixed", []string{"10T"}, []string{"now"})
+		// symlink entries: target's decisive timestamp just below / just above the
+		// threshold x the link's OWN timestamps fresh / ancient x target outside /
+		// inside the data directory
+		add("link-dir", near, alts)
+		add("link-dir@in", near, alts)
+		add("bin-link", near, alts)
+		add("bin-link@in", near, alts)
 	case "caches":
 		add("plain", names, alts)
-		add("link-file", near, []string{"-"})
-		add("link-dir", near, []string{"-"})
+		add("link-file", near, alts)
+		add("link-file@in", near, alts)
+		add("link-dir", near, alts)
 		add("dir", near, []string{"now"})
-		add("link-mixed", []string{"10T"}, []string{"now"})
 	case "staging":
 		add("plain", names, alts)
-		add("link-dir", near, []string{"-"})
-		add("link-file", near, []string{"-"})
+		add("link-dir", near, alts)
+		add("link-dir@in", near, alts)
+		add("link-file", near, alts)
 		add("nested-link", near, alts)
 		add("nested-fresh", []string{"10T", "now"}, []string{"now", "10T"})
-		add("link-mixed", []string{"10T"}, []string{"now"})
 	}
 	for i := range out {
 		if out[i].Alt == "-" {
@@ -564,8 +565,8 @@ func hkPopulations(thorough bool) (pops []hkCase, nva, nvc, nvs int, ageNames []
 		"staging": {{"staging", "plain", "10T", "now"}, {"staging", "plain", "now", "10T"}},
 	}
 	for _, variants := range [][]hkEntry{va, vc, vs} {
-		for _, x := range variants {
-			for _, y := range variants {
+		for xi, x := range variants {
+			for _, y := range variants[xi:] {
 				p := hkCase{[]hkEntry{x, y}}
 				for _, other := range []string{"agents", "caches", "staging"} {
 					if other != x.Cat {
@@ -646,9 +647,9 @@ func TestC43(t *testing.T) {
 		return
 	}
 	pops, nva, nvc, nvs, ageNames := hkPopulations(vr.Thorough())
-	r.Rule(fmt.Sprintf("populations of a temporary MUTAGEN_DATA_DIRECTORY run through the real housekeeping.Housekeep: (1) every pair of entries from two different categories (thorough: every triple, one entry per category) from %d agents x %d caches x %d staging entry variants; (2) every ordered pair of variants within one category next to a fixed stale+fresh background in the other two; (3) all variants at once. Variants: plain entries with the decisive timestamp (agent binary atime; cache / staging-root mtime) at ages %v relative to the category threshold and every other timestamp fresh or ancient; entries that are symlinks to files/directories OUTSIDE the data directory (link and target both just below / just above the threshold, plus a mixed one); an agent binary that is a symlink to an outside file; staging roots containing a symlink to an outside directory; version directories without a binary; wrong-type entries; fixed ancient bystanders in sessions/archives/daemon/forwarding and outside. Non-trivial = the oracle demands at least one removal and at least one survival in the population; distinct by population.", nva, nvc, nvs, ageNames))
+	r.Rule(fmt.Sprintf("populations of a temporary MUTAGEN_DATA_DIRECTORY run through the real housekeeping.Housekeep: (1) every pair of entries from two different categories (thorough: every triple, one entry per category) from %d agents x %d caches x %d staging entry variants; (2) every unordered pair (incl. twice the same) of variants within one category next to a fixed stale+fresh background in the other two; (3) all variants at once. Variants: plain entries with the decisive timestamp (agent binary atime; cache / staging-root mtime) at ages %v relative to the category threshold and every other timestamp fresh or ancient; entries that are symlinks to files/directories OUTSIDE the data directory and to relocated targets INSIDE it (target's decisive timestamp just below / just above the threshold x the link's OWN timestamps, set with utimensat(AT_SYMLINK_NOFOLLOW), fresh / ancient; the target's age decides); an agent binary that is a symlink to an outside file; staging roots containing a symlink to an outside directory; version directories without a binary; wrong-type entries; fixed ancient bystanders in sessions/archives/daemon/forwarding and outside. Non-trivial = the oracle demands at least one removal and at least one survival in the population; distinct by population.", nva, nvc, nvs, ageNames))
 	r.Assume("ages are measured against the real clock with a margin of at least 10 minutes (1 hour in quick) around the thresholds; the run of one population takes milliseconds",
-		"where the statement does not decide (fresh symlink to a stale outside target, stale staging root with fresh content, wrong-type entries, version directories without a binary) either outcome is accepted for the entry itself, but the outside world and all other entries are still judged strictly",
+		"where the statement does not decide (stale staging root with fresh content, wrong-type entries, version directories without a binary) either outcome is accepted for the entry itself, but the outside world and all other entries are still judged strictly",
 		"not in a sidecar container (MUTAGEN_SIDECAR unset), POSIX, linux utimensat; access times are set explicitly and never disturbed before the run (no reads between setting and Housekeep)",
 		"filesystem faults during housekeeping (failed removals) are not injected")
 
